@@ -126,8 +126,81 @@ func (t *lamportTr) valueInto(e ast.Expr, dstName string) (int, error) {
 	return 0, fmt.Errorf("unsupported expression %T", e)
 }
 
+// casArgs decodes <recv>.counter.CompareAndSwap(old, new [+ k]) into registers.
+func (t *lamportTr) casArgs(e ast.Expr) (ro, rn, k int, err error) {
+	m, args, ok := t.counterCall(e)
+	if !ok || m != "CompareAndSwap" || len(args) != 2 {
+		return 0, 0, 0, fmt.Errorf("not a CompareAndSwap on the counter")
+	}
+	oldID, ok := stripConv(args[0]).(*ast.Ident)
+	if !ok {
+		return 0, 0, 0, fmt.Errorf("CAS old value is not a local")
+	}
+	ro, ok = t.regs[oldID.Name]
+	if !ok {
+		return 0, 0, 0, fmt.Errorf("CAS old value unknown")
+	}
+	newE := stripConv(args[1])
+	if be, ok := newE.(*ast.BinaryExpr); ok && be.Op == token.ADD {
+		kk, ok := intLit(be.Y)
+		if !ok {
+			return 0, 0, 0, fmt.Errorf("CAS new value: non-literal addend")
+		}
+		k = kk
+		newE = stripConv(be.X)
+	}
+	newID, ok := newE.(*ast.Ident)
+	if !ok {
+		return 0, 0, 0, fmt.Errorf("CAS new value is not local+k")
+	}
+	rn, ok = t.regs[newID.Name]
+	if !ok {
+		return 0, 0, 0, fmt.Errorf("CAS new value unknown")
+	}
+	return ro, rn, k, nil
+}
+
 func (t *lamportTr) stmt(s ast.Stmt) error {
 	switch s := s.(type) {
+	case *ast.ForStmt:
+		// `for { …; if CAS(old, new+k) { return } }`: the retry loop written without goto.  The successful CAS
+		// must be the last statement of the body; a failed one falls off the end and starts the body again.
+		if s.Init != nil || s.Cond != nil || s.Post != nil || len(s.Body.List) == 0 {
+			return fmt.Errorf("unsupported for shape")
+		}
+		start := len(t.instrs)
+		label := fmt.Sprintf("$for%d", start)
+		t.labels[label] = start
+		for i, b := range s.Body.List {
+			if i < len(s.Body.List)-1 {
+				if err := t.stmt(b); err != nil {
+					return err
+				}
+				continue
+			}
+			is, ok := b.(*ast.IfStmt)
+			if !ok || is.Init != nil || is.Else != nil || len(is.Body.List) != 1 {
+				return fmt.Errorf("for body does not end in `if CAS { return }`")
+			}
+			if r, ok := is.Body.List[0].(*ast.ReturnStmt); !ok || len(r.Results) != 0 {
+				return fmt.Errorf("for body does not end in `if CAS { return }`")
+			}
+			ro, rn, k, err := t.casArgs(is.Cond)
+			if err != nil {
+				return err
+			}
+			t.fix[len(t.instrs)] = label
+			t.instrs = append(t.instrs, fmt.Sprintf(".casPlus %d %d %d @", ro, rn, k), ".ret none")
+		}
+		return nil
+	case *ast.ExprStmt:
+		// a CAS whose result is ignored: whether it succeeds or not, execution continues with the next statement
+		ro, rn, k, err := t.casArgs(s.X)
+		if err != nil {
+			return fmt.Errorf("unsupported expression statement: %v", err)
+		}
+		t.instrs = append(t.instrs, fmt.Sprintf(".casPlus %d %d %d %d", ro, rn, k, len(t.instrs)+1))
+		return nil
 	case *ast.LabeledStmt:
 		t.labels[s.Label.Name] = len(t.instrs)
 		return t.stmt(s.Stmt)
